@@ -1,5 +1,5 @@
 """C09 — stream filters decode as specified; compression is lossless."""
-import hashlib, json, os, zlib
+import base64, hashlib, json, os, zlib
 import vlib
 from vlib import Check, tlc, run_bin, workdir, write_ndjson, read_ndjson, log
 
@@ -32,6 +32,13 @@ META = {
 FAMILY_ACTION = {"a85": "PickA85", "a85ws": "PickA85Ws", "zstored": "PickZ", "lzw": "PickLzw", "lzwlong": "PickLzwLong",
                  "png": "PickPng", "pngbytes": "PickPngBytes", "chain": "PickChain", "row4": "PickPaeth", "row": "PickRow"}
 SHORT = {"FlateDecode": "flate", "LZWDecode": "lzw", "ASCII85Decode": "a85"}
+
+
+VACUITY = []     # vacuity complaints are raised (exit 2) only when the run found no violation: they must not mask one
+
+
+def vacuous(msg):
+    VACUITY.append(msg)
 
 
 def same(x, y):
@@ -144,16 +151,20 @@ def codec_phase(chk, tier, w):
             chk.extra["model_drift"] = chk.extra.get("model_drift", 0) + 1
     for f in fams:
         if passed.get(f, 0) == 0:
-            raise vlib.ToolError("vacuous: no generated case of family %s was decoded correctly by lopdf" % f)
+            vacuous("no generated case of family %s was decoded correctly by lopdf" % f)
     chk.extra["replayed_cases_by_family"] = fams
     chk.extra["replayed_cases"] = len(cases)
     # (B) negative control for the replay judge: a corrupted expectation must be reported
-    neg = next((c, r_) for c, r_ in zip(cases, results) if c["k"] == "chain" and len(c["plain"]) > 2 and judge_chain(c, r_)[0] is None)
-    bad = json.loads(json.dumps(neg[0]))
-    bad["plain"][1] ^= 1
-    if judge_chain(bad, neg[1])[0] is None:
-        raise vlib.ToolError("negative control: corrupted generated case was not reported by the replay judge")
-    chk.extra["negative_controls_rejected"] = chk.extra.get("negative_controls_rejected", 0) + 1
+    neg = next(((c, r_) for c, r_ in zip(cases, results)
+                if c["k"] == "chain" and len(c["plain"]) > 2 and judge_chain(c, r_)[0] is None), None)
+    if neg is None:
+        vacuous("no generated case passes: the replay judge has no negative control")
+    else:
+        bad = json.loads(json.dumps(neg[0]))
+        bad["plain"][1] ^= 1
+        if judge_chain(bad, neg[1])[0] is None:
+            raise vlib.ToolError("negative control: corrupted generated case was not reported by the replay judge")
+        chk.extra["negative_controls_rejected"] = chk.extra.get("negative_controls_rejected", 0) + 1
     for fam in ("png", "lzwlong", "chain", "a85ws"):
         i = next(i for i, c in enumerate(cases) if family(c) == fam and len(c.get("plain", [])) > 3)
         c = cases[i]
@@ -212,12 +223,12 @@ def streamops_model(chk, tier):
     acts = set(r.tagged("ACTION"))
     need = {"set_content", "set_plain_content", "compress", "decompress", "doc_compress", "doc_decompress"}
     if acts != need:
-        raise vlib.ToolError("vacuous StreamOps model: actions taken %s" % sorted(acts))
+        vacuous("StreamOps model: actions taken %s" % sorted(acts))
     r.coverage = {a: (1, 1) for a in acts}
     vlib.require_coverage(r, sorted(need))
     wit = set(r.tagged("WITNESS"))
     if wit != {"compressed", "roundtrip"}:
-        raise vlib.ToolError("vacuous StreamOps model: witnesses %s" % sorted(wit))
+        vacuous("StreamOps model: witnesses %s" % sorted(wit))
     # the run above is the design "as the code is" (all switches off since the fix: commits; StepOK holds, so no
     # DEVIATION line can appear).  Negative control of the contract invariants: each repaired defect seeded
     # back into the model breaks the contract, and only on its own class
@@ -298,14 +309,15 @@ def trace_phase(chk, tier, w):
                     stats["roundtrip_compress_decompress"] += 1
     for k, n in stats.items():
         if n == 0:
-            raise vlib.ToolError("vacuous trace set: no %s" % k)
+            vacuous("trace set: no %s" % k)
     chk.extra["trace_stats"] = stats
     chk.extra["trace_records"] = len(recs)
-    i = next(i for i in range(1, len(recs)) if recs[i]["op"] == "compress" and vmap[i + 1] == "ok"
-             and any(not a["filters"] and b["filters"] for a, b in zip(recs[i - 1]["post"], recs[i]["post"])))
-    chk.sample({"recorded_call": "compress", "pre_lengths": [s["length"] for s in recs[i - 1]["post"]],
-                "post": [{"filters": s["filters"], "length": s["length"], "content": s["content"][:32]} for s in recs[i]["post"]],
-                "verdict": vmap[i + 1]})
+    i = next((i for i in range(1, len(recs)) if recs[i]["op"] == "compress" and vmap[i + 1] == "ok"
+              and any(not a["filters"] and b["filters"] for a, b in zip(recs[i - 1]["post"], recs[i]["post"]))), None)
+    if i is not None:
+        chk.sample({"recorded_call": "compress", "pre_lengths": [s["length"] for s in recs[i - 1]["post"]],
+                    "post": [{"filters": s["filters"], "length": s["length"], "content": s["content"][:32]} for s in recs[i]["post"]],
+                    "verdict": vmap[i + 1]})
     negative_controls(chk, recs, vmap, w)
 
 
@@ -320,7 +332,7 @@ def negative_controls(chk, recs, vmap, w):
         for i in range(1, len(recs)):
             if recs[i]["op"] != "reset" and vmap[i + 1] == "ok" and pred(recs[i - 1], recs[i]):
                 return recs[i - 1], json.loads(json.dumps(recs[i]))
-        raise vlib.ToolError("no record suitable for a negative control")
+        return None
 
     def added(prev, rec):
         return rec["op"] == "compress" and not prev["post"][rec["sid"] - 1]["filters"] and rec["post"][rec["sid"] - 1]["filters"]
@@ -330,6 +342,9 @@ def negative_controls(chk, recs, vmap, w):
         return rec["op"] == "decompress" and a["filters"] == ["FlateDecode"] and not b["filters"] and len(b["content"]) > 0
 
     out, expect = [], []
+    if pick(added) is None or pick(undone) is None:
+        vacuous("no accepted record suitable for the negative controls of Trace_StreamOps")
+        return
     p, r = pick(added)                      # 1. Length entry off by one after compress
     r["post"][r["sid"] - 1]["length"] += 1
     out += [as_reset(p), r]
@@ -354,7 +369,162 @@ def negative_controls(chk, recs, vmap, w):
     chk.extra["negative_controls_rejected"] = chk.extra.get("negative_controls_rejected", 0) + 3
 
 
+# ------------------------------------------------------------------ large, highly compressible contents
+def summary(b):
+    """The same summary the harness computes (pure data plumbing): length, SHA-256, first runs, number of runs."""
+    runs, n, i = [], 0, 0
+    while i < len(b):
+        j = i + 1
+        while j < len(b) and b[j] == b[i]:
+            j += 1
+        if len(runs) < 4:
+            runs.append([b[i], j - i])
+        n += 1
+        i = j
+    return {"len": len(b), "dig": hashlib.sha256(b).hexdigest(), "runs": runs, "nruns": n}
+
+
+def independent_decode(filters, raw):
+    """Decode with decoders that share no code with lopdf: Python's zlib and base64.a85decode."""
+    data = bytes(raw)
+    for f in filters:
+        if f == "FlateDecode":
+            data = zlib.decompress(data)
+        elif f == "ASCII85Decode":
+            t = data.rstrip(b" \t\r\n\x0c\x00")
+            if not t.endswith(b"~>"):
+                raise ValueError("no EOD")
+            data = base64.a85decode(t[:-2], ignorechars=b" \t\r\n\x0c\x00")
+        else:
+            raise ValueError("no independent decoder for " + f)
+    return data
+
+
+def big_phase(chk, tier, w):
+    runs = 24 if tier == "quick" else 240
+    raw = os.path.join(w, "big.ndjson")
+    run_bin("c09", ["recordbig", "--seed", vlib.seed(), "--n", runs, "--out", raw])
+    recs = read_ndjson(raw)
+    decoded = 0
+    for r in recs:
+        for s in r["post"]:
+            orc = {"has": False, "s": summary(b"")}
+            if s["filters"]:
+                if not s["rawok"]:
+                    raise vlib.ToolError("harness logged a filtered stream without its encoded bytes")
+                try:
+                    orc = {"has": True, "s": summary(independent_decode(s["filters"], s["raw"]))}
+                    decoded += 1
+                except Exception:
+                    pass
+            s["orc"] = orc
+            del s["raw"], s["rawok"]
+    tr = os.path.join(w, "bigtrace.ndjson")
+    write_ndjson(tr, recs)
+    r = tlc("Trace_StreamOpsBig.tla", "Trace_StreamOpsBig.cfg", workers=1, env={"TRACE": tr}, deque=True, timeout=1800, name="c09big")
+    chk.add_tlc(r)
+    verdicts = r.tagged("VERDICT")
+    if len(verdicts) != len(recs):
+        raise vlib.ToolError("big trace validator judged %d of %d records" % (len(verdicts), len(recs)))
+    vmap = {}
+    for v in verdicts:
+        rec, prev = recs[v["i"] - 1], recs[v["i"] - 2] if v["i"] > 1 else None
+        vmap[v["i"]] = v["v"]
+        chk.case(case_key({"op": rec["op"], "arg": rec["arg"]["dig"], "post": [[s["filters"], s["c"]["dig"]] for s in rec["post"]]})
+                 if rec["op"] != "reset" else None)
+        if v["v"].startswith("ok"):
+            chk.traces += 1
+            if v["v"] == "ok-drift":
+                chk.extra["model_drift"] = chk.extra.get("model_drift", 0) + 1
+        else:
+            strip = lambda s: {k: s[k] for k in ("filters", "length", "c", "dc", "gp", "orc")}
+            chk.violation("C09:big." + v["v"], {"op": rec["op"], "stream": rec["sid"], "arg": rec["arg"], "res": rec["res"],
+                                                "pre": [strip(s) for s in prev["post"]] if prev and rec["op"] != "reset" else [],
+                                                "post": [strip(s) for s in rec["post"]],
+                                                "note": "byte strings as summaries: length, SHA-256, first runs, number of runs; "
+                                                        "orc = what Python zlib / a85decode obtain from the encoded content"})
+    # (B) the recorded set must contain the class: ratios far beyond 256:1, every size, chains, save + load
+    st = {"states_ratio_over_256": 0, "states_ratio_over_256_in_ascii85": 0, "compress_added_filter_ratio_over_256": 0,
+          "decompress_restored_big_plain": 0, "save_load": 0, "set_plain_content": 0, "doc_ops": 0, "independently_decoded_states": decoded}
+    sizes = set()
+    for i in range(1, len(recs)):
+        rec, prev = recs[i], recs[i - 1]
+        if rec["op"] == "reset":
+            continue
+        st["save_load"] += rec["op"] == "save_load" and rec["res"] == "ok"
+        st["set_plain_content"] += rec["op"] == "set_plain_content"
+        st["doc_ops"] += rec["op"].startswith("doc_")
+        for a, b in zip(prev["post"], rec["post"]):
+            if b["filters"] and b["orc"]["has"] and b["orc"]["s"]["len"] > 256 * b["c"]["len"]:
+                st["states_ratio_over_256"] += 1
+                sizes.add(b["orc"]["s"]["len"])
+            # Flate inside ASCII85: the Flate stage sees 4/5 of the content
+            if b["filters"] == ["ASCII85Decode", "FlateDecode"] and b["orc"]["has"] and b["orc"]["s"]["len"] > 256 * b["c"]["len"]:
+                st["states_ratio_over_256_in_ascii85"] += 1
+            if rec["op"] in ("compress", "doc_compress") and not a["filters"] and b["filters"] and a["c"]["len"] > 256 * b["c"]["len"]:
+                st["compress_added_filter_ratio_over_256"] += 1
+            if rec["op"] in ("decompress", "doc_decompress") and a["filters"] and not b["filters"] and b["c"]["len"] >= 65536:
+                st["decompress_restored_big_plain"] += 1
+    for k, n in st.items():
+        if n == 0:
+            vacuous("big trace set: no %s" % k)
+    if not any(n >= 300 * 1024 for n in sizes) or not any(65536 <= n < 300 * 1024 for n in sizes):
+        vacuous("big trace set: no 64 KiB / 300 KiB content beyond ratio 256")
+    chk.extra["big_trace_stats"] = {k: int(n) for k, n in st.items()}
+    chk.extra["big_trace_records"] = len(recs)
+    i = next((i for i in range(1, len(recs)) if recs[i]["op"] == "compress" and vmap[i + 1] == "ok"
+              and any(not a["filters"] and b["filters"] and a["c"]["len"] > 256 * b["c"]["len"]
+                      for a, b in zip(recs[i - 1]["post"], recs[i]["post"]))), None)
+    if i is not None:
+        chk.sample({"recorded_call": "compress (large content, summarised)", "pre": [s["c"] for s in recs[i - 1]["post"]],
+                    "post": [{"filters": s["filters"], "length": s["length"], "content": s["c"],
+                              "lopdf_decompressed_content": s["dc"], "python_zlib": s["orc"]} for s in recs[i]["post"]],
+                    "verdict": vmap[i + 1]})
+    # (B) negative controls: a truncated decode result / a truncated content after decompress must be rejected
+    def as_reset(rec):
+        x = json.loads(json.dumps(rec))
+        x["op"], x["sid"], x["arg"], x["res"] = "reset", 0, summary(b""), "ok"
+        return x
+
+    def pick(pred):
+        for i in range(1, len(recs)):
+            if recs[i]["op"] != "reset" and vmap[i + 1] == "ok" and pred(recs[i - 1], recs[i]):
+                return recs[i - 1], json.loads(json.dumps(recs[i]))
+        return None
+
+    c1 = pick(lambda p, r: r["op"] == "compress" and not p["post"][r["sid"] - 1]["filters"] and r["post"][r["sid"] - 1]["filters"])
+    c2 = pick(lambda p, r: r["op"] == "decompress" and p["post"][r["sid"] - 1]["filters"] and not r["post"][r["sid"] - 1]["filters"])
+    if c1 is None or c2 is None:
+        vacuous("no accepted record suitable for the negative controls of Trace_StreamOpsBig")
+        return
+    out = []
+    p, r = c1                                # 1. decompressed_content returns a truncated result
+    s = r["post"][r["sid"] - 1]
+    s["dc"]["s"] = dict(s["dc"]["s"], len=s["dc"]["s"]["len"] // 3)
+    out += [as_reset(p), r]
+    p, r = json.loads(json.dumps(c1))        # 2. the compressed content inflates to other bytes (lossy)
+    s = r["post"][r["sid"] - 1]
+    s["orc"]["s"]["dig"] = "00" + s["orc"]["s"]["dig"][2:] if not s["orc"]["s"]["dig"].startswith("00") else "11" + s["orc"]["s"]["dig"][2:]
+    s["dc"]["s"]["dig"] = s["gp"]["s"]["dig"] = s["orc"]["s"]["dig"]
+    out += [as_reset(p), r]
+    p, r = c2                                # 3. decompress stored truncated bytes with a matching Length
+    s = r["post"][r["sid"] - 1]
+    s["c"] = dict(s["c"], len=s["c"]["len"] // 3)
+    s["length"] = s["c"]["len"]
+    s["gp"]["s"] = s["c"]
+    out += [as_reset(p), r]
+    ntr = os.path.join(w, "bigneg.ndjson")
+    write_ndjson(ntr, out)
+    t = tlc("Trace_StreamOpsBig.tla", "Trace_StreamOpsBig.cfg", workers=1, env={"TRACE": ntr}, deque=True, name="c09bigneg")
+    got = {v["i"]: v["v"] for v in t.tagged("VERDICT")}
+    seen, expect = [got.get(2), got.get(4), got.get(6)], ["decompressed_content", "compress.lossy", "decompress.content"]
+    if seen != expect:
+        raise vlib.ToolError("negative controls: Trace_StreamOpsBig answered %s, expected %s" % (seen, expect))
+    chk.extra["negative_controls_rejected"] = chk.extra.get("negative_controls_rejected", 0) + 3
+
+
 def run(tier):
+    del VACUITY[:]
     chk = Check("C09", META["level"], tier)
     chk.rule = ("cases enumerated by TLC (MC_Codecs: one state per input x encoder choice) and calls recorded from seeded random "
                 "operation sequences; a generated case is non-trivial when its plain data is non-empty (or it is a single PNG row), "
@@ -365,6 +535,9 @@ def run(tier):
         "LZW and ASCII85 are transcribed from ISO 32000-1 7.4.3/7.4.4.2 (TIFF 6.0 for the encoder side) and PNG filters from "
         "the PNG specification section 9; vectors: ISO LZW example, 'Man ' -> 9jqo^, adler32('Wikipedia')",
         "BitsPerComponent is 8 or 16 and Predictor is 1 or 10..15 (the property's domain); TIFF predictor 2 is not covered",
+        "Large contents (4 KiB - 300 KiB, highly compressible) reach TLC as summaries (length, SHA-256, first runs, number of runs) "
+        "computed by the harness; equality of byte strings is equality of summaries, and the reference decode of lopdf's "
+        "deflate / ASCII85 output is Python's zlib / base64.a85decode",
         "TLC -coverage is not used (15-300x slowdown on fold-heavy modules); action coverage is taken from the emitted case "
         "families and ACTION/WITNESS lines",
     ]
@@ -372,10 +545,14 @@ def run(tier):
     codec_phase(chk, tier, w)          # (M)+(G) Codecs
     streamops_model(chk, tier)         # (M) StreamOps, as repaired and as the code is
     trace_phase(chk, tier, w)          # (V)+(B)
+    big_phase(chk, tier, w)            # (V)+(B) large / highly compressible contents, summarised
     if tier != "quick":
         paeth_cube(chk, w)
         chk.extra["paeth"] = "full 2^24 cube compared (TLC rows vs decode_row table)"
     else:
         chk.extra["paeth"] = "stratified cube 11^3 via decode_row; full cube only in the thorough tier"
     chk.exhaustive = True
+    if VACUITY and not chk.violations:
+        raise vlib.ToolError("vacuous: " + "; ".join(VACUITY))
+    chk.extra["vacuity_notes"] = list(VACUITY)
     return chk.finish()
